@@ -76,16 +76,21 @@ func (r *resolver) noteDisabled(parent Meta, ident string) {
 	r.disabled[parent][ident] = true
 }
 
-func (r *resolver) noteDisabledDef(parent Meta, child Definition, depth int) {
+func (r *resolver) noteDisabledDef(parent Meta, child Definition, seen map[*Grouping]bool) {
 	u, isUses := child.(*Uses)
 	if !isUses {
 		r.noteDisabled(parent, child.Ident())
 		return
 	}
-	// everything the grouping would have brought in, guarding against recursive groupings
-	if g, err := r.findGrouping(u); err == nil && depth < 32 {
+	// everything the grouping would have brought in. A grouping is looked into once, groupings may
+	// use themselves and each other, any number of times
+	if g, err := r.findGrouping(u); err == nil && !seen[g] {
+		if seen == nil {
+			seen = make(map[*Grouping]bool)
+		}
+		seen[g] = true
 		for _, d := range g.DataDefinitions() {
-			r.noteDisabledDef(parent, d, depth+1)
+			r.noteDisabledDef(parent, d, seen)
 		}
 	}
 }
@@ -671,7 +676,7 @@ func (r *resolver) addDataDefinition(parent HasDataDefinitions, child Definition
 	if hasIf, valid := child.(HasIfFeatures); valid {
 		if on, err := checkFeature(hasIf); err != nil || !on {
 			if err == nil {
-				r.noteDisabledDef(parent, child, 0)
+				r.noteDisabledDef(parent, child, nil)
 			}
 			return nil, err
 		}
@@ -995,7 +1000,7 @@ func (r *resolver) expandAugment(y *Augment, parent Meta) error {
 		// what the augment would have added counts as left out, for augments aimed at it
 		if target := Find(parent.(HasDataDefinitions), y.ident); target != nil {
 			for _, d := range y.DataDefinitions() {
-				r.noteDisabledDef(target, d, 0)
+				r.noteDisabledDef(target, d, nil)
 			}
 			for ident := range r.disabled[y] {
 				r.noteDisabled(target, ident)
